@@ -97,7 +97,7 @@ theorem C10_unclean_async (fuel : Nat) (rs : List Spec.AbsResp) (r : Spec.AbsRes
     (hwf : ∀ x ∈ rs, Spec.WF x = true) (hr : Spec.WF r = true)
     (hpq : Spec.enc r = p ++ q) (hp : p ≠ []) (hq : q ≠ [])
     (hflat : chunks.flatten = rs.flatMap Spec.enc ++ p) :
-    sessionA (fuel + 1 + rs.length) 0 [] chunks .eof = rs.map viewItem ++ [.unexpectedEof] := by
+    sessionA (fuel + 1 + rs.length) 0 .initial [] chunks .eof = rs.map viewItem ++ [.unexpectedEof] := by
   rw [C02.C02_async _ [] chunks .eof hne, List.nil_append, hflat]
   exact C10_unclean fuel rs r p q hwf hr hpq hp hq
 
@@ -106,7 +106,7 @@ theorem C10_unclean_sync (fuel : Nat) (rs : List Spec.AbsResp) (r : Spec.AbsResp
     (hwf : ∀ x ∈ rs, Spec.WF x = true) (hr : Spec.WF r = true)
     (hpq : Spec.enc r = p ++ q) (hp : p ≠ []) (hq : q ≠ [])
     (hflat : chunks.flatten = rs.flatMap Spec.enc ++ p) :
-    sessionS (fuel + 1 + rs.length) 0 { cap := DEFAULT_CAP, data := [] } chunks .eof =
+    sessionS (fuel + 1 + rs.length) 0 .initial { cap := DEFAULT_CAP, data := [] } chunks .eof =
       rs.map viewItem ++ [.unexpectedEof] := by
   rw [C02.C02_sync _ _ chunks .eof hne C02.fresh_inv, List.nil_append, hflat]
   exact C10_unclean fuel rs r p q hwf hr hpq hp hq
@@ -114,14 +114,14 @@ theorem C10_unclean_sync (fuel : Nat) (rs : List Spec.AbsResp) (r : Spec.AbsResp
 theorem C10_clean_async (fuel : Nat) (rs : List Spec.AbsResp) (chunks : List Bytes)
     (hne : NonEmptyChunks chunks) (hwf : ∀ r ∈ rs, Spec.WF r = true)
     (hflat : chunks.flatten = rs.flatMap Spec.enc) :
-    sessionA (fuel + 1 + rs.length) 0 [] chunks .eof = rs.map viewItem ++ [.clean] := by
+    sessionA (fuel + 1 + rs.length) 0 .initial [] chunks .eof = rs.map viewItem ++ [.clean] := by
   rw [C02.C02_async _ [] chunks .eof hne, List.nil_append, hflat]
   exact C10_clean fuel rs hwf
 
 theorem C10_clean_sync (fuel : Nat) (rs : List Spec.AbsResp) (chunks : List Bytes)
     (hne : NonEmptyChunks chunks) (hwf : ∀ r ∈ rs, Spec.WF r = true)
     (hflat : chunks.flatten = rs.flatMap Spec.enc) :
-    sessionS (fuel + 1 + rs.length) 0 { cap := DEFAULT_CAP, data := [] } chunks .eof = rs.map viewItem ++ [.clean] := by
+    sessionS (fuel + 1 + rs.length) 0 .initial { cap := DEFAULT_CAP, data := [] } chunks .eof = rs.map viewItem ++ [.clean] := by
   rw [C02.C02_sync _ _ chunks .eof hne C02.fresh_inv, List.nil_append, hflat]
   exact C10_clean fuel rs hwf
 
